@@ -141,9 +141,40 @@ def parse_mir(txt):
     return fns
 
 
+def parse_consts(txt):
+    """`const NAME: TYPE = { bb0: {..} }` items (named constants and promoted ones) as zero-argument functions"""
+    out = {}
+    lines = txt.split('\n')
+    i = 0
+    while i < len(lines):
+        m = re.match(r'^const (.+?): (.+?) = \{$', lines[i])
+        if not m:
+            i += 1
+            continue
+        blocks, cur = {}, None
+        i += 1
+        while i < len(lines) and lines[i] != '}':
+            s_ = lines[i]
+            mm = re.match(r'^    (bb\d+)( \(cleanup\))?: \{$', s_)
+            if mm:
+                cur = mm.group(1)
+                blocks[cur] = []
+            elif cur is not None and s_.startswith('        '):
+                blocks[cur].append(s_.strip())
+            elif s_ == '    }':
+                cur = None
+            i += 1
+        out[m.group(1)] = Fn(lines[i - 1], m.group(1), [], m.group(2), blocks, {})
+        i += 1
+    return out
+
+
 class Program:
     def __init__(self, txt):
         self.fns = parse_mir(txt)
+        self.consts = parse_consts(txt)
+        # simple named constants: `const NAME: TYPE = const VALUE;`
+        self.simple_consts = {m.group(1): m.group(2) for m in re.finditer(r'^const ([\w:]+): [^=]+ = (const [^;]+);$', txt, re.M)}
 
     def find(self, name_suffix, first_param=None, nparams=None):
         """Unique function whose path ends with `::name_suffix` (or equals it) and whose first parameter type matches."""
@@ -255,6 +286,18 @@ class Ctx:
         raise Unsupported('length of %r' % (base,))
 
 
+def mk_slice(base, lo, hi):
+    if isinstance(base, tuple) and base[0] == 'slice':
+        return ('slice', base[1], base[2] + lo, base[2] + hi)
+    return ('slice', base, lo, hi)
+
+
+def mk_elem(base, idx):
+    if isinstance(base, tuple) and base[0] == 'slice':
+        return ('elem', base[1], base[2] + idx)
+    return ('elem', base, idx)
+
+
 def decode_template(lit):
     """Compact format_args! template of this toolchain: 0xc0 = next argument, n<0x80 = n literal bytes, 0 = end."""
     b = eval('b"' + lit + '"')
@@ -321,7 +364,7 @@ class Interp:
         s = s.strip()
         m = re.match(r'^(.*)\[(_\d+)\]$', s)
         if m and self._balanced(m.group(1)):
-            return ('elem', self.place(m.group(1), env), env[m.group(2)])
+            return mk_elem(self.place(m.group(1), env), env[m.group(2)])
         if re.match(r'^_\d+$', s):
             if s not in env:
                 raise Unsupported('read of unset local ' + s)
@@ -385,6 +428,18 @@ class Interp:
             return ('tmpl', decode_template(m.group(1)))
         if s.startswith('const ZeroSized') or s == 'const ()':
             return ('unit',)
+        m = re.match(r'^const ((?:\w+::)*[A-Z][A-Z0-9_]*)$', s)
+        if m:
+            name = m.group(1)
+            c = [f for n, f in self.prog.consts.items() if n == name or n.endswith('::' + name.split('::')[-1]) and name.split('::')[-1] == n.split('::')[-1]]
+            if len(c) == 1:
+                ps = Interp(self.prog, self.ctx).run(c[0], [])
+                if len(ps) == 1:
+                    return ps[0].result
+            sc = [v for n, v in self.prog.simple_consts.items() if n.split('::')[-1] == name.split('::')[-1]]
+            if len(sc) == 1:
+                return self.operand(sc[0], env)
+            raise Unsupported('named constant ' + name)
         if s.startswith('const '):
             raise Unsupported('constant ' + s)
         return self.place(s, env)
@@ -417,6 +472,12 @@ class Interp:
             return ('some', self.operand(m.group(1), env))
         if re.match(r'^std::option::Option::<.*>::None$', s):
             return ('none',)
+        m = re.match(r'^(?:std::ops::)?RangeTo::<usize> \{ end: (.*) \}$', s)
+        if m:
+            return ('range', z3.IntVal(0), self.operand(m.group(1), env))
+        m = re.match(r'^(?:std::ops::)?RangeFrom::<usize> \{ start: (.*) \}$', s)
+        if m:
+            return ('rangefrom', self.operand(m.group(1), env))
         m = re.match(r'^std::ops::Range::<usize> \{ start: (.*), end: (.*) \}$', s)
         if m:
             return ('range', self.operand(m.group(1), env), self.operand(m.group(2), env))
@@ -469,10 +530,36 @@ class Interp:
             raise Unsupported('format template constructor ' + n)
         if n == 'format' or n.endswith('fmt::format'):
             return [(pc, ('fmt', a[0][1], a[0][2]))]
-        if re.search(r'<\[String\] as Index<std::ops::Range<usize>>>::index$', n):
-            _, lo, hi = a[1]
+        if re.search(r'<.* as ToString>::to_string$', n) and not (z3.is_expr(a[0]) and a[0].sort() == z3.StringSort()) and not (isinstance(a[0], tuple) and a[0][0] == 'str'):
+            self.fresh += 1
+            return [(pc, z3.String('display%d' % self.fresh))]
+        if re.search(r'(^|::)String::len$|str::<impl str>::len$|(^|::)str::len$', n):
+            sv = tostr(a[0])
+            return [(pc, z3.Int('bytelen(%s)' % sv))]
+        if re.search(r'<(String|str) as Index<(std::ops::)?Range(To|From|Inclusive)?<usize>>>::index$', n):
+            sv = tostr(a[0])
+            ln = z3.Int('bytelen(%s)' % sv)
+            if a[1][0] == 'rangefrom':
+                lo, hi = a[1][1], ln
+            else:
+                _, lo, hi = a[1]
+            self.fresh += 1
+            ok = (pc + [ln >= 0, lo <= hi, hi <= ln], z3.String('substr%d' % self.fresh))
+            # str slicing panics when an end point is not on a character boundary: for an arbitrary string that is possible for every
+            # end point strictly inside the string
+            inside = z3.Or(z3.And(lo > 0, lo < ln), z3.And(hi > 0, hi < ln), hi > ln, lo > hi)
+            return [ok, (pc + [ln >= 0, inside], ('panic', 'str slice `[%s..%s]` of a string that is not known to have a character boundary there' % (lo, hi)))]
+        if re.search(r'<usize as Ord>::(min|max)$|cmp::(min|max)::<usize>$', n):
+            return [(pc, z3.If(a[0] < a[1], a[0], a[1]) if 'min' in n.split('::')[-1] or n.endswith('min') else z3.If(a[0] > a[1], a[0], a[1]))]
+        if re.search(r'<\[String\] as Index<(std::ops::)?Range(To|From)?<usize>>>::index$', n):
             ln = self.ctx.length(a[0])
-            return [(pc + [lo <= hi, hi <= ln], ('slice', a[0], lo, hi))]
+            if a[1][0] == 'rangefrom':
+                lo, hi = a[1][1], ln
+            else:
+                _, lo, hi = a[1]
+            # out-of-range slicing panics
+            out = [(pc + [lo <= hi, hi <= ln], mk_slice(a[0], lo, hi))]
+            return out
         if re.search(r'<impl \[String\]>::join::<&str>$', n):
             return [(pc, ('join', a[0], a[1]))]
         for pat, fn in self.inline.items():
@@ -489,6 +576,13 @@ class Interp:
             if re.search(pat, n):
                 calls.append(n)
                 return [(pc, ('call', n, a))]
+        # any other function of the crate: inline it (panic paths propagate)
+        cname = re.sub(r'::<[^(]*>$', '', n)
+        cands = [f for f in self.prog.fns if (f.name == cname or f.name.endswith('::' + cname)) and '::verif::' not in f.name and '{closure' not in f.name]
+        if len(cands) == 1 and re.match(r'^[a-z_][\w:]*$', cname):
+            sub = Interp(self.prog, self.ctx, self.inline, self.opaque, self.max_paths)
+            sub.fresh = self.fresh + 100
+            return [(p.pc, p.result) for p in sub.run(cands[0], a, pc)]
         raise Unsupported('call to ' + n)
 
     # -- driver -----------------------------------------------------------------------------------------
@@ -551,6 +645,10 @@ class Interp:
                 sc = split_call(st)
                 if sc:
                     for (npc, val) in self.call(sc[1], _split_top(sc[2]), env, pc, calls):
+                        if isinstance(val, tuple) and val and val[0] == 'panic':
+                            if self.feasible(npc):
+                                paths.append(Path(npc, val, list(calls)))
+                            continue
                         e2 = dict(env)
                         self.assign(sc[0], val, e2)
                         work.append((sc[3], e2, npc, list(calls)))
